@@ -6,8 +6,21 @@
 
 Exit codes: 0 harness ran to completion (failures are data) / replayed case ok; 1 replayed case failed;
 3 harness crash.
+
+Module interface (SPEC.md): BOUNDS, RULE, cases(tier, seed), run_case(case). Optional module attributes:
+  CASE_TIMEOUT_S         per-case watchdog in seconds (default 10)
+  RUN_IN_SUBPROCESS      True: every case runs in a fresh child python (own session, killed as a group on timeout)
+  BATCH                  cases per pool task (default 128; 1 when RUN_IN_SUBPROCESS)
+  MAX_WATCHDOG_FAILURES  after this many timeouts / memory blow-ups the remaining cases are skipped and the output
+                         says "complete": false (default 10) - a hang costs seconds, a million hangs cost days
+A module may name the behaviour it is about to exercise in `_util.PROGRESS["scenario"]`; a watchdog failure is then
+reported under that scenario instead of "<kind>/watchdog".
+
+Verdict of a case: the dict returned by run_case; an exception escaping run_case is a problem of the harness itself
+and is reported as a failure with observed = "harness-exception: ..." (library exceptions that contradict the
+property are caught by the module and reported as ordinary failures of the case); timeout -> observed "timeout".
 """
-import argparse, collections, hashlib, importlib, itertools, json, os, random, resource, signal, subprocess, sys, time, traceback
+import argparse, array, collections, hashlib, importlib, itertools, json, os, random, resource, signal, subprocess, sys, time, traceback
 
 HERE = os.path.dirname(os.path.abspath(__file__))
 DEFAULT_TIMEOUT_S = 10
@@ -137,7 +150,7 @@ def exec_in_child(case):
     except Exception:
         return {"ok": False, "trivial": False, "scenario": f"{case.get('kind', '?')}/watchdog",
                 "expected": "child reports a result",
-                "observed": f"harness-exception: child exit {p.returncode}, stderr: {err[-300:]!r}"}
+                "observed": f"child-crash: exit status {p.returncode}, stderr: {err[-300:]!r}"}
 
 
 def _kill_group(p):
@@ -153,7 +166,7 @@ def exec_case(case):
 
 def run_batch(batch):
     """Worker side: evaluate a batch, return a compact summary."""
-    n, digests, fails, scen, failscen = 0, [], [], collections.Counter(), collections.Counter()
+    n, digests, fails, scen, failscen = 0, bytearray(), [], collections.Counter(), collections.Counter()
     first, last, skipped = {}, None, 0
     limit = int(getattr(MOD, "MAX_WATCHDOG_FAILURES", MAX_WATCHDOG_FAILURES))
     for case in batch:
@@ -167,7 +180,7 @@ def run_batch(batch):
                 WATCHDOGS.value += 1
         (scen if res["ok"] else failscen)[res["scenario"]] += 1
         if not res["trivial"]:
-            digests.append(hashlib.blake2b(canon(case).encode(), digest_size=8).digest())
+            digests += hashlib.blake2b(canon(case).encode(), digest_size=8).digest()
             if res["ok"]:       # sample candidates per batch: first case of every scenario + the last case
                 if res["scenario"] not in first and len(first) < 8:
                     first[res["scenario"]] = case
@@ -177,7 +190,7 @@ def run_batch(batch):
             fails.append(jsonable({"scenario": res["scenario"], "case": case, "expected": res["expected"],
                                    "observed": res["observed"]}))
     samples = [{"scenario": k, "case": v} for k, v in first.items()] + ([last] if last else [])
-    return n, digests, fails, samples, dict(scen), dict(failscen), skipped
+    return n, bytes(digests), fails, samples, dict(scen), dict(failscen), skipped
 
 
 def batches(it, size):
@@ -194,7 +207,8 @@ def enumerate_all(tier, seed, jobs):
     import multiprocessing
     size = 1 if getattr(MOD, "RUN_IN_SUBPROCESS", False) else int(getattr(MOD, "BATCH", BATCH))
     gen = batches(MOD.cases(tier, seed), size)
-    evaluations, distinct, failures = 0, set(), []
+    evaluations, failures = 0, []
+    distinct = [array.array("Q") for _ in range(256)]    # 64-bit digests of the non-trivial cases, bucketed
     samples, reserve, scenarios, failscen = [], [], collections.Counter(), collections.Counter()
     seen, rng, skipped = 0, random.Random(seed), 0
     global WATCHDOGS
@@ -205,7 +219,8 @@ def enumerate_all(tier, seed, jobs):
         n, digests, fails, samp, scen, fscen, skip = r
         evaluations += n
         skipped += skip
-        distinct.update(digests)
+        for d in array.array("Q", digests):
+            distinct[d & 255].append(d)
         scenarios.update(scen)
         failscen.update(fscen)
         for f in fails:
@@ -237,7 +252,7 @@ def enumerate_all(tier, seed, jobs):
     for s in reserve:
         if len(samples) < MAX_SAMPLES and s not in samples:
             samples.append(s)
-    return evaluations, len(distinct), failures, samples, scenarios, failscen, skipped
+    return evaluations, sum(len(set(b)) for b in distinct), failures, samples, scenarios, failscen, skipped
 
 
 def main(argv=None):
